@@ -875,6 +875,11 @@ func (f *frame) next(x *ssa.Next, st *State, cur string) (string, error) {
 	v := B.define(f.vname(x)+".v", vs, fmt.Sprintf("(select (select %s %s) %s)", t.get(st, mapVArr(mt), vsA), m, k))
 	fact := fmt.Sprintf("(and (=> %s (and (not (= %s 0)) (select %s %s) (not (select %s %s)))) (=> (not %s) (or (= %s 0) (forall ((?kk %s)) (! (=> (select %s ?kk) (select %s ?kk)) :pattern ((select %s ?kk)))))))",
 		okC, m, pres, k, vis, k, okC, m, ks, pres, vis, pres)
+	// extensionality at exhaustion: if only present keys were visited, the visited set is the key set
+	presSet := fmt.Sprintf("(select %s %s)", t.get(st, mapPArr(mt), ps), m)
+	fact = and(fact, fmt.Sprintf("(=> (and (not %s) (not (= %s 0)) (forall ((?kk %s)) (! (=> (select %s ?kk) (select %s ?kk)) :pattern ((select %s ?kk))))) (= %s %s))", okC, m, ks, vis, presSet, vis, vis, presSet))
+	// a map with exactly one key: the key delivered is the only one
+	fact = and(fact, fmt.Sprintf("(=> (and %s (= (%s %s) 1)) (forall ((?kk %s)) (! (=> (select %s ?kk) (= ?kk %s)) :pattern ((select %s ?kk)))))", okC, B.cardFn(ks), presSet, ks, presSet, k, presSet))
 	cur = and(cur, fact, implies(okC, t.typeFacts(st, v, mt.Elem())))
 	st.visited[r] = B.define("visited", "(Array "+ks+" Bool)", ite(okC, fmt.Sprintf("(store %s %s true)", vis, k), vis))
 	f.vals[x] = &Val{tuple: []*Val{{term: okC}, {term: k}, {term: v}}}
